@@ -142,6 +142,27 @@ def run(ctx):
                               'output' % (selfty, h), span=c.span)
                 if h == 'on_start':
                     continue
+                # (b2) every event of this kind reaches the wrapped actor: with `self` and the state being this
+                # variant, no path to the exit avoids the forwarding call (no arm that swallows some messages)
+                cons = []
+                for root_arg in (1, 3):
+                    sws_ = [sw for sw in b.switches if sw.kind == 'variant' and
+                            noref(b.trace(noref(b.agg_field(sw.on)), ('Deref::deref',))).kind == 'arg' and
+                            noref(b.trace(noref(b.agg_field(sw.on)), ('Deref::deref',))).key == root_arg and
+                            not noref(b.trace(noref(b.agg_field(sw.on)), ('Deref::deref',))).fields()]
+                    labs_ = set()
+                    for sw in sws_:
+                        for (lab, t) in sw.edges:
+                            if isinstance(lab, str) and b.edges_dominate([(sw.bb, t)], c.bb):
+                                labs_.add(lab)
+                    if len(labs_) == 1:
+                        cons.append((sws_, next(iter(labs_))))
+                rr = b.reach_under(cons, [0], cut_blocks=[c.bb])
+                ctx.check(not any(x in rr for x in b.returns), 'C15-R2', tag + ':every-event-forwarded', b,
+                          good='every %s event of this variant is handed to the wrapped actor' % h,
+                          bad='%s::%s can return without calling the wrapped actor\'s %s although self and the state '
+                              'are the %s variant: some events never reach the wrapped actor, so the wrapped system '
+                              'behaves differently from the unwrapped one' % (selfty, h, h, var), span=c.span)
                 # (c) inner state is a Cow::Borrowed of the inner part of the outer state
                 sv = b.val(c.args[2])
                 sv2 = noref(sv)
